@@ -21,7 +21,7 @@ def run(ctx):
         "depends on now and on the configured duration; R4 publish marks every listed file; R5 the file list comes from "
         "`files` (FullFDT) or from the objects in transmission (other mode), selected by publish_mode.")
     ctx.not_decided += ["XML well-formedness and escaping (quick-xml / serde)", "set equality of listed objects over all add/remove/publish histories",
-                        "an instance is superseded before it expires (timing)"]
+                        "an instance is superseded before it expires as a timing statement (R7 decides the renewal predicate's shape only)"]
 
     # ---- R1 ----------------------------------------------------------------------------------
     r1 = ctx.rule("C10.R1", "Fdt.fdtid: written only in Fdt::new (initial) and Fdt::publish; in publish the new value is in "
@@ -278,6 +278,97 @@ def run(ctx):
         else:
             r6.violation(key, "File: %s ; FdtInstance: %s" % (a_[n_][0][:100], b_.get(n_, ("?",))[0][:100]), loc(maps[FDTI + "::get_oti"][1].sp))
     r6.floor(20, "extraction facts")
+
+    # ---- R7 renewal before expiry ---------------------------------------------------------------
+    r7 = ctx.rule("C10.R7", "renewal: Fdt::current_fdt_will_expire answers true whenever the time since last_publish has reached the configured "
+                            "duration (every non-constant answer is `duration - margin < elapsed` or `duration <= elapsed` with margin >= 0 and "
+                            "elapsed = now - last_publish; `false` only while an instance is still queued; `true` when nothing was published yet); "
+                            "get_next_fdt_transfer publishes under that answer before it takes the next instance from the queue", "value shape + DOM")
+    from ..cfg import cmp_kind, strip_ref
+    we = prog.fn(FDT + "::current_fdt_will_expire")
+    ctx.analysed(we.path)
+    wsl = Slicer(we.body)
+    wfl = Flow(we.body)
+    for bb, e in ret_assign_blocks(we.body, lambda e: True):
+        if e[0] == "const" and e[2] is False:
+            key = "current_fdt_will_expire returns false"
+            fs = wfl.facts_at(bb)
+            if any(a[0] == "true" and not t and "is_empty" in show(a[1]) and "fdt_transfer_queue" in show(a[1]) for (a, t) in fs):
+                r7.ok(key, "only while an instance is still queued", loc(we.sp))
+            else:
+                r7.violation(key, "answers `false` unconditionally on a path where no instance is queued", loc(we.sp))
+            continue
+        if e[0] == "const" and e[2] is True:
+            r7.ok("current_fdt_will_expire returns true", "nothing published / no current transfer", loc(we.sp))
+            continue
+        ex = wsl.expand(e)
+        ck = cmp_kind(ex)
+        key = "current_fdt_will_expire answer %s" % show(e, 70)
+        ok = False
+        why = "not a comparison"
+        if ck:
+            op, a, b = ck
+            if op in ("Gt", "Ge"):
+                op, a, b = {"Gt": "Lt", "Ge": "Le"}[op], b, a
+            a, b = strip_ref(a), strip_ref(b)
+            elapsed = b[0] == "call" and b[1].endswith("unwrap_or_default") and "duration_since(&now" in show(b, 200) and "self.last_publish" in show(b, 200)
+            thr = None
+            if show(a) == "self.duration":
+                thr = 0
+            elif a[0] == "call" and re.search(r"(Sub.*::sub|Duration::sub|saturating_sub|checked_sub)$", a[1]) and show(strip_ref(a[2][0])) == "self.duration":
+                m_ = strip_ref(a[2][1])
+                if m_[0] == "call" and m_[1].endswith("Duration::from_secs"):
+                    thr = const_value(m_[2][0])
+            if not elapsed:
+                why = "right-hand side is %s, not the time since last_publish" % show(b, 80)
+            elif thr is None:
+                why = "threshold is %s, not self.duration minus a constant margin" % show(a, 80)
+            elif thr == 0 and op not in ("Le", "Lt"):
+                why = "operator %s" % op
+            elif thr == 0 and op == "Lt":
+                why = "`duration < elapsed` misses elapsed == duration"
+            else:
+                ok = True
+        if ok:
+            r7.ok(key, "threshold <= duration, compared with the time since last_publish", loc(we.sp))
+        else:
+            r7.violation(key, "the renewal test can answer false after the instance's validity has run out: %s" % why, loc(we.sp))
+    gn = prog.fn(FDT + "::get_next_fdt_transfer")
+    ctx.analysed(gn.path)
+    gfl = Flow(gn.body)
+    pubs = call_sites(gn, lambda p, c: p == FDT + "::publish")
+    pops = [s for s, ai, mut in calls_on_field(prog, FDT, "fdt_transfer_queue", funcs=[gn]) if method_name(s) in ("pop_front", "pop_back", "remove")]
+    if not pubs or not pops:
+        r7.violation("get_next_fdt_transfer renews", "publish (%d) / pop (%d) sites not found" % (len(pubs), len(pops)), loc(gn.sp))
+    for s in pubs:
+        fs = gfl.facts_at(s.bb)
+        if any(a[0] == "true" and t and "current_fdt_will_expire" in show(a[1]) for (a, t) in fs):
+            r7.ok("get_next_fdt_transfer publishes when the instance will expire", "", s.loc)
+        else:
+            r7.violation("get_next_fdt_transfer publishes when the instance will expire", "publish is not under current_fdt_will_expire(now)", s.loc)
+    # ... and on every path where the answer is true
+    pub_bbs = set(s.bb for s in pubs)
+    for blk in gn.body.blocks:
+        t_ = blk.term
+        if t_.k != "switch":
+            continue
+        for k in range(len(t_.targets) + 1):
+            if any(a[0] == "true" and t and a[1][0] == "call" and a[1][1].endswith("current_fdt_will_expire") for (a, t) in gfl.edge_facts(("e", blk.i, k))):
+                tgt = t_.targets[k][1] if k < len(t_.targets) else t_.otherwise
+                for s in pops:
+                    ok, w_ = gfl.must_pass(tgt, [s.bb], lambda n: n[0] == "b" and n[1] in pub_bbs)
+                    key = "get_next_fdt_transfer: will-expire => publish before the next instance is taken"
+                    if ok:
+                        r7.ok(key, "", s.loc)
+                    else:
+                        r7.violation(key, "a path from `current_fdt_will_expire(now) == true` reaches the queue pop without publishing: %s" % path_text(gn.body, w_), s.loc)
+    wes = call_sites(gn, lambda p, c: p == FDT + "::current_fdt_will_expire")
+    for s in pops:
+        if wes and all(w_.bb != s.bb and gfl.dominates(w_.bb, s.bb) for w_ in wes):
+            r7.ok("get_next_fdt_transfer: renewal test before taking the next instance", "", s.loc)
+        else:
+            r7.violation("get_next_fdt_transfer: renewal test before taking the next instance", "the queue is popped on a path that skipped the renewal test", s.loc)
+    r7.floor(8, "renewal facts")
 
     # ---- R4 ----------------------------------------------------------------------------------
     r4 = ctx.rule("C10.R4", "in Fdt::publish the push to the FDT queue is followed by set_published() on every entry of self.files, "
